@@ -365,9 +365,13 @@ impl Env {
     fn next_pos(&mut self, kind: &'static str) -> (u16, bool) {
         let p = self.pos;
         self.pos += 1;
-        let hit = matches!(&self.fault, Some(f) if f.pos == p);
+        let hit = matches!(&self.fault, Some(f) if f.pos <= p && p <= f.pos + f.extra);
         if hit {
-            self.fault = None;
+            if matches!(&self.fault, Some(f) if p >= f.pos + f.extra) {
+                self.fault = None;
+            } else {
+                self.bump("fault.outage-continues");
+            }
             self.fault_fired += 1;
             self.bump(kind);
             self.push(Ev::Fault { kind, pos: p });
@@ -694,7 +698,7 @@ impl Env {
             };
             self.cursor[i] < len
         };
-        let fault_here = matches!(&self.fault, Some(f) if f.pos == self.pos);
+        let fault_here = matches!(&self.fault, Some(f) if f.pos <= self.pos && self.pos <= f.pos + f.extra);
         if !has_frame && !fault_here {
             self.rxc_idle = true;
             return None;
